@@ -127,7 +127,11 @@ def swhid_of_git_repo(path) -> CoreSWHID:
 
     branches: Dict[bytes, Optional[Dict]] = {}
     for ref, target in refs.items():
-        obj = repo[target]
+        try:
+            obj = repo[target]
+        except KeyError:
+            # the reference points to an object the repository does not have
+            obj = None
         if obj:
             branches[ref] = {
                 "target": hashutil.bytehex_to_hash(target),
